@@ -343,7 +343,7 @@ class Evolver:
             # productions that once exposed a defect (kept as a standing floor)
             "message-no-typename", "rust-keyword-name", "base-regexp", "empty-struct-property", "request-no-typename",
             "matrix", "same-name-different-nullness", "shared-registration-method", "diamond",
-            "message-regopts-no-params", "explicit-closed-enum", "and-registration-options", "deep-mixin", "confusing-message-names", "exotic-enum-values", "message-map-keys", "marked-everything", "alias-shapes", "declares-response-error", "method-mentions-request", "literal-name-collision", "big-declarations", "case-only-names", "mutual-recursion", "digit-names", "substring-names", "selection-range-additions", "short-names", "result-name-collision"]
+            "message-regopts-no-params", "explicit-closed-enum", "and-registration-options", "deep-mixin", "confusing-message-names", "exotic-enum-values", "message-map-keys", "marked-everything", "alias-shapes", "declares-response-error", "method-mentions-request", "literal-name-collision", "big-declarations", "case-only-names", "mutual-recursion", "digit-names", "substring-names", "selection-range-additions", "short-names", "result-name-collision", "nested-literals"]
     RUST_AND_PYTHON_KEYWORDS = ["in", "for", "as", "if", "else", "while", "continue", "break", "return", "async", "await", "try", "yield"]
 
     MATRIX_PRODUCTIONS = ["base", "ref-struct", "ref-enum", "ref-alias", "array", "map", "tuple", "ornull-first", "ornull-last", "literal",
@@ -586,6 +586,30 @@ class Evolver:
                     if all(q["name"] != p_["name"] for q in sr[0]["properties"]) and any(s["name"] == "SelectionRangeParams" for s in self.doc["structures"]):
                         sr[0]["properties"].append(p_)
                         self.edits.append({"edit": "E2-new-property", "structure": "SelectionRange", "property": p_["name"], "type": p_["type"], "optional": bool(p_.get("optional"))})
+            return
+        if focus == "nested-literals":
+            # literals inside literals (as LSP 3.17 had under ServerCapabilities.workspace): the inner literal is the first
+            # required property of the outer one, is called like it, or has a short name - the cases in which name builders
+            # that look at property names give both levels one name
+            S_, U_ = {"kind": "base", "name": "string"}, {"kind": "base", "name": "uinteger"}
+            L_ = lambda props: {"kind": "literal", "value": {"properties": props}}   # noqa: E731
+            owner = self.fresh_type_name("VfNest")
+            local = {"entries", "p", "detail", "count", "inner", "leaf", "tag", "text", "q"}
+            w1 = self.fresh_prop_name(local)
+            local.add(w1)
+            w2 = self.fresh_prop_name(local)
+            props = [
+                {"name": "entries", "type": {"kind": "array", "element": L_([{"name": "detail", "type": L_([{"name": "text", "type": S_}])}, {"name": "count", "type": U_}])}},
+                {"name": "p", "type": L_([{"name": "p", "type": L_([{"name": "q", "type": S_}])}]), "optional": True},
+                {"name": w1, "type": L_([{"name": w1, "type": L_([{"name": w1, "type": S_}, {"name": w2, "type": U_, "optional": True}])}]), "optional": True},
+                {"name": w2, "type": {"kind": "or", "items": [L_([{"name": "inner", "type": L_([{"name": "leaf", "type": S_}]), "optional": True}, {"name": "tag", "type": S_}]), {"kind": "base", "name": "null"}]}},
+            ]
+            self.doc["structures"].append({"name": owner, "properties": props})
+            self.new_structs.append(owner)
+            self.edits.append({"edit": "E1-new-structure", "name": owner, "properties": [p_["name"] for p_ in props]})
+            self.counter += 1
+            self.doc["notifications"].append({"method": f"vf/nested{self.counter}", "messageDirection": "both", "params": {"kind": "reference", "name": owner}})
+            self.edits.append({"edit": "E6-new-message", "method": f"vf/nested{self.counter}", "request": False})
             return
         if focus == "result-name-collision":
             # a request `<X>Request` whose result is built from a declared structure called `<X>Result` (the name the python
